@@ -48,6 +48,7 @@ func (dv *defaultVerifierPipeline) worker(ctx context.Context, wg *sync.WaitGrou
 			if !ok {
 				return
 			}
+			verifPoint("verify.recv")
 			extra, noExists, err := dv.verifyRoot(root)
 			if err != nil {
 				sendErr(ctx, errc, err)
